@@ -48,7 +48,7 @@ CLAIMS['C06'] = ('proof',
     _B_NOTE, 'contract-based deductive verification: Kani/CBMC harnesses on the real operator functions', 'DESIGN.md 5/C06')
 CLAIMS['C01'] = ('proof',
     'Kernel contracts only: the scalar semantics every query of the subset is built from (three-valued AND/OR, NULL propagation, exact integer +,-,*, comparisons) and LIMIT/OFFSET slicing are proved on the real code '
-    'against the SQL definitions written as independent spec predicates. Also under contract (Verus): the scan-level WHERE filter (unit A-filter), x [NOT] IN (list) (unit E-inlist), the row-path accumulators (A-acc). Planner, joins, grouping, set operations and subqueries are not under contract.',
+    'against the SQL definitions written as independent spec predicates. Also under contract (Verus): the scan-level WHERE filter (unit A-filter), x [NOT] IN (list) (unit E-inlist), the row-path accumulators (A-acc). Planner, joins, grouping glue and subqueries are not under contract.',
     _B_NOTE, 'contract-based deductive verification: Kani/CBMC on operator kernels + Verus on apply_limit_offset', 'DESIGN.md 5/C01')
 CLAIMS['C10'] = ('proof',
     'Narrow: the one place where constraint checking is short-circuited - the append-mode tracker that lets the PRIMARY KEY check skip its duplicate lookup - is put under contract against a ghost set of the '
@@ -124,3 +124,22 @@ CLAIMS['C06'] = ('proof',
     'three-valued x [NOT] IN (list) for every list length (linear and HashSet branch); the index range extraction is sound for BETWEEN [SYMMETRIC] (unit I-range). '
     'NOT under contract: the OR predicate tree, CompiledWhereClause (vectorized path), join / subquery predicates, and that every scan path applies these functions to every row.',
     _B_NOTE, 'contract-based deductive verification: Kani/CBMC harnesses on the real operator functions + Verus on the extracted filter / IN-list functions', 'DESIGN.md 5/C06, 9b')
+
+# ---- additions after units K-undo, K-pk, G-group, I-resolve, S-setops ----------------------------------------------------------------------
+def _extend(pid, extra):
+    c = CLAIMS[pid]
+    CLAIMS[pid] = (c[0], c[1] + ' ' + extra, c[2], c[3], c[4])
+
+_extend('C14', 'ADDED (unit K-undo): Database::rollback_to_savepoint / undo_change apply the inverse of every change recorded since the savepoint, last first, '
+        'over table contents as bags (Insert: take the row out; Update: take the NEW row out, put the OLD row back; Delete: put the row back). That the executors RECORD '
+        'every change is not under contract: plain INSERT / UPDATE / DELETE do (SQL reproduction), REPLACE, ON DUPLICATE KEY UPDATE, FK cascades do not.')
+_extend('C10', 'ADDED (unit K-pk): enforce_primary_key_constraint / enforce_unique_constraints / enforce_check_constraints on INSERT - an accepted row repeats no PRIMARY KEY '
+        'and no NULL-free UNIQUE key of the batch or of a stored row (index lookup and scan fallback), NULL-holding UNIQUE keys never collide, CHECK rejects exactly FALSE; '
+        '(unit K-table) every Table mutator leaves the hash indexes in sync (IndexManager by assumed contracts). RowValidator, the UPDATE-side validator, REPLACE and '
+        'CREATE UNIQUE INDEX enforcement are not under contract.')
+_extend('C08', 'ADDED (unit S-setops): apply_distinct returns every key of its input exactly once (multiplicities; that first occurrences keep their order is not stated).')
+_extend('C02', 'ADDED (unit I-resolve): Operations::rebuild_indexes - called after DELETE and after a savepoint undo shift row positions - rebuilds the CREATE INDEX indexes from the '
+        'rows of the table the name resolves to, with the same name resolution as create_index (the registry\'s own maintenance code by assumed contracts).')
+_extend('C07', 'ADDED: group_rows is a partition of the input by key - one group per distinct key, NULL keys one group, rows in input order (unit G-group); the float batching driver '
+        'and the columnar pipeline are under contract in unit A-col.')
+_extend('C01', 'ADDED (unit S-setops): apply_set_operation against SQL bag semantics for UNION / INTERSECT / EXCEPT [ALL], per key over the multiplicities of both inputs.')
